@@ -1,0 +1,117 @@
+//go:build verif
+
+// Contracts for the deductive verifier under /verif (comment-only file).
+package optdec
+
+// The native DOM node is read through raw pointers; its accessors are assumed
+// to be pure functions of the node (content of the DOM, which the Go code never
+// writes).  Everything the Go functors add on top - which kinds are accepted,
+// the width range checks, exact (non-wrapping) narrowing, null handling - is proved.
+//@ pure func nType(n Node) uint8
+//@ pure func nU64(n Node) uint64
+//@ pure func nI64(n Node) int64
+//@ pure func nNumber(n Node, ctx *Context) json.Number
+//@ pure func nRaw(n Node, ctx *Context) string
+
+//@ func Node.Type assumed "reads the type byte of the native DOM node (raw memory written only by native parse_with_padding)"
+//@   ensures result == nType(val)
+//@ func Node.U64 assumed "reads the value word of the native DOM node"
+//@   ensures result == nU64(val)
+//@ func Node.I64 assumed "reads the value word of the native DOM node"
+//@   ensures result == nI64(val)
+//@ func Node.Number assumed "slice of the private JSON copy held by the parser"
+//@   ensures same(result, nNumber(val, ctx))
+//@ func Node.Raw assumed "slice of the private JSON copy held by the parser"
+//@   ensures same(result, nRaw(val, ctx))
+//@ func error_mismatch assumed "constructs a MismatchTypeError value (non-nil error)"
+//@   ensures result != nil
+
+// what AsI64/AsU64/AsByte must accept and return (taken from the property: exact
+// integer conversion, out-of-range and non-integers rejected, never wrapped)
+//@ pure func asI64ok(n Node, ctx *Context) bool = (nType(n) == KUint && nU64(n) <= 9223372036854775807) || nType(n) == KSint || (nType(n) == KRawNumber && json.numInt64ok(nNumber(n, ctx)))
+//@ pure func asI64val(n Node, ctx *Context) int64 = ite(nType(n) == KUint, int64(nU64(n)), ite(nType(n) == KSint, nI64(n), json.numInt64(nNumber(n, ctx))))
+//@ pure func asU64ok(n Node, ctx *Context) bool = nType(n) == KUint || (nType(n) == KRawNumber && parseU64ok(nRaw(n, ctx)))
+//@ pure func asU64val(n Node, ctx *Context) uint64 = ite(nType(n) == KUint, nU64(n), parseU64val(nRaw(n, ctx)))
+//@ pure func parseU64ok(s string) bool
+//@ pure func parseU64val(s string) uint64
+
+//@ func ParseU64 assumed "strconv-based helper; treated as a function of the text"
+//@   ensures (r1 == nil) == parseU64ok(s) && (r1 == nil ==> r0 == parseU64val(s))
+
+//@ func Node.AsI64 props C11,C19
+//@   ensures r1 <==> asI64ok(self, ctx)
+//@   ensures r1 ==> r0 == asI64val(self, ctx)
+//@   ensures (r1 && nType(self) == KUint) ==> int(r0) == int(nU64(self))
+
+//@ func Node.AsU64 props C11,C19
+//@   ensures r1 <==> asU64ok(self, ctx)
+//@   ensures r1 ==> r0 == asU64val(self, ctx)
+
+//@ func Node.AsByte props C11,C19
+//@   ensures r1 <==> ((nType(self) == KUint && nU64(self) <= 255) || (nType(self) == KSint && nI64(self) == 0))
+//@   ensures (r1 && nType(self) == KUint) ==> int(r0) == int(nU64(self))
+//@   ensures (r1 && nType(self) == KSint) ==> r0 == 0
+
+//@ func (*i8Decoder).FromDom props C11,C19
+//@   requires vp != nil
+//@   modifies *cast(*int8, vp)
+//@   ensures nType(node) == KNull ==> (result == nil && *cast(*int8, vp) == old(*cast(*int8, vp)))
+//@   ensures nType(node) != KNull ==> ((result == nil) <==> (asI64ok(node, ctx) && -128 <= asI64val(node, ctx) && asI64val(node, ctx) <= 127))
+//@   ensures (nType(node) != KNull && result == nil) ==> int(*cast(*int8, vp)) == int(asI64val(node, ctx))
+//@   ensures result != nil ==> *cast(*int8, vp) == old(*cast(*int8, vp))
+
+//@ func (*i16Decoder).FromDom props C11,C19
+//@   requires vp != nil
+//@   modifies *cast(*int16, vp)
+//@   ensures nType(node) == KNull ==> (result == nil && *cast(*int16, vp) == old(*cast(*int16, vp)))
+//@   ensures nType(node) != KNull ==> ((result == nil) <==> (asI64ok(node, ctx) && -32768 <= asI64val(node, ctx) && asI64val(node, ctx) <= 32767))
+//@   ensures (nType(node) != KNull && result == nil) ==> int(*cast(*int16, vp)) == int(asI64val(node, ctx))
+//@   ensures result != nil ==> *cast(*int16, vp) == old(*cast(*int16, vp))
+
+//@ func (*i32Decoder).FromDom props C11,C19
+//@   requires vp != nil
+//@   modifies *cast(*int32, vp)
+//@   ensures nType(node) == KNull ==> (result == nil && *cast(*int32, vp) == old(*cast(*int32, vp)))
+//@   ensures nType(node) != KNull ==> ((result == nil) <==> (asI64ok(node, ctx) && -2147483648 <= asI64val(node, ctx) && asI64val(node, ctx) <= 2147483647))
+//@   ensures (nType(node) != KNull && result == nil) ==> int(*cast(*int32, vp)) == int(asI64val(node, ctx))
+//@   ensures result != nil ==> *cast(*int32, vp) == old(*cast(*int32, vp))
+
+//@ func (*i64Decoder).FromDom props C11,C19
+//@   requires vp != nil
+//@   modifies *cast(*int64, vp)
+//@   ensures nType(node) == KNull ==> (result == nil && *cast(*int64, vp) == old(*cast(*int64, vp)))
+//@   ensures nType(node) != KNull ==> ((result == nil) <==> (asI64ok(node, ctx)))
+//@   ensures (nType(node) != KNull && result == nil) ==> int(*cast(*int64, vp)) == int(asI64val(node, ctx))
+//@   ensures result != nil ==> *cast(*int64, vp) == old(*cast(*int64, vp))
+
+//@ func (*u8Decoder).FromDom props C11,C19
+//@   requires vp != nil
+//@   modifies *cast(*uint8, vp)
+//@   ensures nType(node) == KNull ==> (result == nil && *cast(*uint8, vp) == old(*cast(*uint8, vp)))
+//@   ensures nType(node) != KNull ==> ((result == nil) <==> (asU64ok(node, ctx) && asU64val(node, ctx) <= 255))
+//@   ensures (nType(node) != KNull && result == nil) ==> int(*cast(*uint8, vp)) == int(asU64val(node, ctx))
+//@   ensures result != nil ==> *cast(*uint8, vp) == old(*cast(*uint8, vp))
+
+//@ func (*u16Decoder).FromDom props C11,C19
+//@   requires vp != nil
+//@   modifies *cast(*uint16, vp)
+//@   ensures nType(node) == KNull ==> (result == nil && *cast(*uint16, vp) == old(*cast(*uint16, vp)))
+//@   ensures nType(node) != KNull ==> ((result == nil) <==> (asU64ok(node, ctx) && asU64val(node, ctx) <= 65535))
+//@   ensures (nType(node) != KNull && result == nil) ==> int(*cast(*uint16, vp)) == int(asU64val(node, ctx))
+//@   ensures result != nil ==> *cast(*uint16, vp) == old(*cast(*uint16, vp))
+
+//@ func (*u32Decoder).FromDom props C11,C19
+//@   requires vp != nil
+//@   modifies *cast(*uint32, vp)
+//@   ensures nType(node) == KNull ==> (result == nil && *cast(*uint32, vp) == old(*cast(*uint32, vp)))
+//@   ensures nType(node) != KNull ==> ((result == nil) <==> (asU64ok(node, ctx) && asU64val(node, ctx) <= 4294967295))
+//@   ensures (nType(node) != KNull && result == nil) ==> int(*cast(*uint32, vp)) == int(asU64val(node, ctx))
+//@   ensures result != nil ==> *cast(*uint32, vp) == old(*cast(*uint32, vp))
+
+//@ func (*u64Decoder).FromDom props C11,C19
+//@   requires vp != nil
+//@   modifies *cast(*uint64, vp)
+//@   ensures nType(node) == KNull ==> (result == nil && *cast(*uint64, vp) == old(*cast(*uint64, vp)))
+//@   ensures nType(node) != KNull ==> ((result == nil) <==> (asU64ok(node, ctx)))
+//@   ensures (nType(node) != KNull && result == nil) ==> int(*cast(*uint64, vp)) == int(asU64val(node, ctx))
+//@   ensures result != nil ==> *cast(*uint64, vp) == old(*cast(*uint64, vp))
